@@ -57,6 +57,82 @@ def _num(v):
     return None
 
 
+# signatures of the analysed program's own functions (set by Program after indexing): name -> parameter names, only for
+# names whose definitions all agree; LIBRARY_ROOTS = names bound by imports of other packages (np, scipy, os, ...)
+SIGNATURES = {'func': {}, 'method': {}}
+LIBRARY_ROOTS = set()
+
+
+def set_signatures(prog):
+    func, meth = {}, {}
+    roots = set()
+    for unit in prog.units.values():
+        for n in ast.walk(unit.tree):
+            if isinstance(n, ast.Import):
+                for a in n.names:
+                    if not a.name.startswith('pyiga'):
+                        roots.add((a.asname or a.name).split('.')[0])
+            elif isinstance(n, ast.ImportFrom):
+                if n.level == 0 and n.module and not n.module.startswith('pyiga'):
+                    for a in n.names:
+                        roots.add(a.asname or a.name)
+    for q, f in prog.functions.items():
+        a = f.node.args
+        if a.posonlyargs:
+            names = None
+        else:
+            names = tuple(x.arg for x in a.args)
+        name = f.node.name
+        is_method = f.cls is not None and f.outer is None
+        deco = {src(d).split('.')[-1] for d in f.node.decorator_list}
+        if is_method:
+            if 'staticmethod' not in deco and names:
+                names = names[1:]
+            meth.setdefault(name, set()).add(names)
+        else:
+            func.setdefault(name, set()).add(names)
+    SIGNATURES['func'] = {k: next(iter(v)) for k, v in func.items() if len(v) == 1 and None not in v}
+    SIGNATURES['method'] = {k: next(iter(v)) for k, v in meth.items() if len(v) == 1 and None not in v}
+    # a name that is both a function and a method with different parameters is ambiguous for attribute calls
+    SIGNATURES['ambiguous'] = {k for k in func if k in meth and (len(func[k] | meth[k]) > 1)}
+    LIBRARY_ROOTS.clear()
+    LIBRARY_ROOTS.update(roots)
+
+
+def _signature_of(call):
+    f = call.func
+    if isinstance(f, ast.Name):
+        if f.id in LIBRARY_ROOTS:
+            return None
+        return SIGNATURES['func'].get(f.id)
+    if isinstance(f, ast.Attribute):
+        root = f
+        while isinstance(root, ast.Attribute):
+            root = root.value
+        if isinstance(root, ast.Name) and root.id in LIBRARY_ROOTS:
+            return None
+        if f.attr in SIGNATURES.get('ambiguous', ()):
+            return None
+        m, fn = SIGNATURES['method'].get(f.attr), SIGNATURES['func'].get(f.attr)
+        if m is not None and fn is not None:
+            return m if m == fn else None
+        if m is not None and f.attr in _COMMON_LIBRARY_METHODS:
+            return None
+        return m if m is not None else fn
+    return None
+
+
+# method names that numpy / scipy / builtin objects also have: an attribute call of these may not be the repository's method
+_COMMON_LIBRARY_METHODS = {
+    'dot', 'sum', 'copy', 'reshape', 'ravel', 'transpose', 'astype', 'append', 'extend', 'get', 'update', 'add', 'index', 'count', 'sort',
+    'insert', 'pop', 'remove', 'join', 'split', 'format', 'items', 'keys', 'values', 'min', 'max', 'mean', 'any', 'all', 'nonzero', 'tolist',
+    'asformat', 'tocsr', 'tocsc', 'tocoo', 'toarray', 'todense', 'diagonal', 'setdiag', 'eliminate_zeros', 'multiply', 'power', 'squeeze',
+    'flatten', 'fill', 'take', 'repeat', 'clip', 'cumsum', 'prod', 'argsort', 'argmax', 'argmin', 'searchsorted', 'matvec', 'rmatvec', 'matmat',
+    'write', 'read', 'close', 'replace', 'strip', 'startswith', 'endswith', 'encode', 'decode', 'hexdigest', 'setdefault', 'union',
+    'intersection', 'difference', 'issubset', 'discard', 'clear', 'solve', 'apply', 'eval', 'run', 'build', 'generate', 'refine',
+}
+
+
 def canon(n, bound=None):
     """canonical nested tuple of an expression node"""
     bound = bound or {}
@@ -128,7 +204,15 @@ def canon(n, bound=None):
             args = args[1:]         # range(0, n) == range(n)
         if fn in COMMUTATIVE_CALLS:
             args = sorted(args, key=repr)
-        kws = tuple(sorted(((k.arg or '**'), canon(k.value, bound)) for k in n.keywords))
+        kwl = [('kw:' + (k.arg or '**'), canon(k.value, bound)) for k in n.keywords]
+        # a function of the analysed program called with positional arguments: bind them to the declared parameter names
+        # (f(a, b) == f(a, y=b)); only when every function of that name declares the same leading parameters
+        params = _signature_of(n)
+        if params is not None and not any(isinstance(a, ast.Starred) for a in n.args) and len(args) <= len(params) \
+                and not ({'kw:' + q for q in params[:len(args)]} & {k for k, _v in kwl}):
+            kwl += [('kw:' + q, a) for q, a in zip(params, args)]
+            args = []
+        kws = tuple(sorted(kwl, key=repr))
         return ('C', canon(n.func, bound), tuple(args), kws)
     if isinstance(n, ast.Subscript):
         sl = n.slice
@@ -247,7 +331,16 @@ def _neighbours(t):
                         a[i], a[j] = a[j], a[i]
                         yield ('C', fn, tuple(a), kws), 'arguments %d and %d of %s swapped' % (i + 1, j + 1, fname)
         for i in range(len(kws)):
-            yield ('C', fn, args, kws[:i] + kws[i + 1:]), 'keyword argument %s of %s dropped' % (kws[i][0], fname)
+            yield ('C', fn, args, kws[:i] + kws[i + 1:]), 'keyword argument %s of %s dropped' % (kws[i][0][3:], fname)
+        # the values of two named arguments exchanged (positional arguments of the program's own functions are bound to
+        # their parameter names by canon, so this is also `arguments swapped` for them)
+        if fname not in COMMUTATIVE_CALLS:
+            for i in range(len(kws)):
+                for j in range(i + 1, len(kws)):
+                    if kws[i][1] != kws[j][1]:
+                        k2 = list(kws)
+                        k2[i], k2[j] = (kws[i][0], kws[j][1]), (kws[j][0], kws[i][1])
+                        yield ('C', fn, args, tuple(sorted(k2, key=repr))), 'arguments %s and %s of %s swapped' % (kws[i][0][3:], kws[j][0][3:], fname)
     if tag == 'Sub' and len(t[2]) > 1:
         idx = t[2]
         for i in range(len(idx)):
